@@ -473,12 +473,13 @@ def replay(cex):
         cls = getattr(red, job["moment"])
         r = f("r")
         e1 = _raises(lambda: cls(ratio_bound=r))
-        e2 = _raises(lambda: cls(ratio_bound=r, difference_bound=0.1))
+        d = float(F(mdl.get("d", "1/10")))
+        e2 = _raises(lambda: cls(ratio_bound=r, difference_bound=d))
         bad = []
         if (0 < r <= 1) != (e1 is None):
             bad.append(f"ratio_bound={r}: {'accepted' if e1 is None else 'rejected'}")
         if e2 is None:
-            bad.append("ratio_bound and difference_bound together accepted")
+            bad.append(f"ratio_bound={r} and difference_bound={d} together accepted")
         return {"reproduced": bool(bad), "detail": "; ".join(bad) + f" ({job['moment']})"}
     if kind == "sym-costs":
         a, b = f("cfp"), f("cfn")
